@@ -29,7 +29,7 @@ def gen(rng):
         elif r < 0.84:
             lines.append(f"ca.sendpgn {i} 0 {rng.randrange(256)} {rng.randrange(256)} 6 [1,2]")
         elif r < 0.93:
-            lines.append(f"ca.sendreq {i} 0 {rng.choice([0xEE00, 0xFECA, 0xEE01, 0x1EE00, 0xEEFF, rng.getrandbits(18)])} {rng.choice([255, 128, 10])}")
+            lines.append(f"ca.sendreq {i} 0 {rng.choice([0xEE00, 0xFECA, 0xEE01, 0x1EE00, 0xEEFF, rng.getrandbits(18)])} {rng.choice([255, 128, 10, 0, 0])}")
         else:
             lines.append(f"ca.acceptable {i} {rng.choice([255, 254] + ADDRS)}")
         lines.append(f"ca.dump {i}")
